@@ -1,0 +1,75 @@
+//go:build verif
+
+// Verification hook for property C16 (add-only, compiled only with -tags verif):
+// direct access to the unexported scanners of the rule parser.
+
+package seclang
+
+import (
+	"github.com/corazawaf/coraza/v3/internal/corazawaf"
+	"github.com/corazawaf/coraza/v3/types"
+)
+
+// VerifC16KV is one (key, value) pair as produced by parseActions.
+type VerifC16KV struct {
+	Key   string
+	Value string
+	Type  int
+}
+
+// VerifC16ParseActions calls parseActions (no logger).
+func VerifC16ParseActions(actions string) ([]VerifC16KV, error) {
+	acts, err := parseActions(nil, actions)
+	if err != nil {
+		return nil, err
+	}
+	res := make([]VerifC16KV, 0, len(acts))
+	for _, a := range acts {
+		res = append(res, VerifC16KV{Key: a.Key, Value: a.Value, Type: int(a.Atype)})
+	}
+	return res, nil
+}
+
+// VerifC16ParseActionOperator calls parseActionOperator.
+func VerifC16ParseActionOperator(data string) (vars, op, actions string, err error) {
+	return parseActionOperator(data)
+}
+
+// VerifC16CutQuotedString calls cutQuotedString.
+func VerifC16CutQuotedString(s string) (string, string, error) {
+	return cutQuotedString(s)
+}
+
+// VerifC16ParseVariables runs RuleParser.ParseVariables on a fresh rule and returns the rule.
+func VerifC16ParseVariables(waf *corazawaf.WAF, vars string) (*corazawaf.Rule, error) {
+	rule := corazawaf.NewRule()
+	if waf != nil {
+		rule.SetMemoizer(waf.Memoizer())
+	}
+	rp := RuleParser{
+		options:        RuleOptions{WAF: waf},
+		rule:           rule,
+		defaultActions: map[types.RulePhase][]ruleAction{},
+	}
+	if err := rp.ParseVariables(vars); err != nil {
+		return nil, err
+	}
+	return rule, nil
+}
+
+// VerifC16ParseOperator runs RuleParser.ParseOperator on a fresh rule and returns the rule.
+func VerifC16ParseOperator(waf *corazawaf.WAF, operator string) (*corazawaf.Rule, error) {
+	rule := corazawaf.NewRule()
+	if waf != nil {
+		rule.SetMemoizer(waf.Memoizer())
+	}
+	rp := RuleParser{
+		options:        RuleOptions{WAF: waf},
+		rule:           rule,
+		defaultActions: map[types.RulePhase][]ruleAction{},
+	}
+	if err := rp.ParseOperator(operator); err != nil {
+		return nil, err
+	}
+	return rule, nil
+}
